@@ -80,6 +80,16 @@ impl HistoryBuffer {
         ensures match o { Some(cc) => self.history_buffer@.contains_key(*ts) && *cc == self.history_buffer@[*ts], None => !self.history_buffer@.contains_key(*ts) }
 @@end
 
+// the same text once more WITHOUT the arrival-order assumption (two application threads sharing a
+// DataWriter, or async writes completing in reverse, can deliver sequence numbers out of order):
+// whatever arrives, the highest written sequence number never moves back — it is what HEARTBEATs
+// advertise (C04) and what wait_for_acknowledgments waits for (C20, seed C20f)
+@@extract fn src/rtps/writer.rs HistoryBuffer::add_change as=add_change__any_order
+@@ensures hist.add.last_monotone
+    final(self).last_seq.0 == (if new_cache_change.sequence_number.0 > old(self).last_seq.0 { new_cache_change.sequence_number.0 } else { old(self).last_seq.0 }),
+    final(self).first_seq == old(self).first_seq,
+@@end
+
 @@extract fn src/rtps/writer.rs HistoryBuffer::add_change
 @@requires wf.hist
     old(self).wf()
